@@ -14,7 +14,7 @@ let iz = int_of_z
 let ints_of_csv s = List.filter_map (fun t -> match int_of_string_opt t with Some i when i >= 1 && i <= 250 -> Some i | _ -> None) (split_on ',' s)
 
 let is_event u =
-  u = "q" || u = "a" || u = "s" || u = "r" || u = "i" || u = "x" || u = "c" || u = "k"
+  u = "q" || u = "p" || u = "a" || u = "s" || u = "r" || u = "i" || u = "x" || u = "c" || u = "k"
   || (String.length u >= 2 && u.[0] = 'w' && u.[1] >= '0' && u.[1] <= '9')
   || (String.length u >= 1 && u.[0] = 'e')
 
@@ -48,7 +48,7 @@ let parse_table t =
 let () =
   let cases = read_lines Sys.argv.(1) in
   let impl = impl_table Sys.argv.(2) in
-  let n_events = ref 0 and n_probes = ref 0 and n_fresh = ref 0 in
+  let n_events = ref 0 and n_probes = ref 0 and n_fresh = ref 0 and n_pf = ref 0 in
   List.iteri (fun k line ->
     let lines = impl_lines impl k in
     let monitor_died = List.exists (starts_with "MONITOR") lines in
@@ -105,6 +105,22 @@ let () =
            | "q" ->
              incr n_q;
              (match apply !ch (EvSend (next_choice ())) with Some (c, o) -> Some (c, o, []) | None -> None)
+           | "p" ->
+             (* a query during which the connection of the probe copy cannot be opened (PF): the
+                probe is an attempt that fails at once - EvSend, then EvRefuse of the probe copy with
+                ECONNREFUSED; the probe is never transmitted, so its OTx is not part of the stream *)
+             incr n_q;
+             (match apply !ch (EvSend (next_choice ())) with
+              | Some (c, o) ->
+                if not (List.mem "PF" recs) then Some (c, o, [])
+                else
+                  (match List.filter_map (function OTx (pl, _, true) -> Some pl | _ -> None) o with
+                   | [pl] ->
+                     (match apply c (EvRefuse (pl, zi 11, next_choice ())) with
+                      | Some (c', o') -> incr n_pf; Some (c', List.filter (function OTx (_, _, true) -> false | _ -> true) o @ o', ["PF"])
+                      | None -> None)
+                   | _ -> None)
+              | None -> None)
            | "a" | "s" | "r" | "i" ->
              (match head_label () with
               | None -> Some (!ch, [], ["-"])
@@ -261,13 +277,13 @@ let () =
          List.iter (fun (_, _, f) -> if f > !max_fail then max_fail := f) it;
          (* probe liveness: healthy first attempt, the draw says probe, a failed server is past its
             retry time with no probe in flight, yet no probe was transmitted *)
-         if u = "q" then begin
+         if (u = "q" || u = "p") && not (List.mem "PF" recs) then begin
            match r2s, choose_server rot (zi (match r1s with x :: _ -> x | [] -> 0)) pre.ch_servers with
            | r2 :: _, Some s when iz s.sv_fail = 0 && chance <> 0 && r2 mod chance = 0 ->
              (match probe_due pre pre.ch_servers with
               | Ok true ->
                 if not (List.exists (function OTx (_, _, true) -> true | _ -> false) iobs) then
-                  add_fail "probe-starved" (Printf.sprintf "event q: failed server past its retry time, no probe in flight, draw %d mod %d = 0, yet no probe sent; table before [%s]" r2 chance (render_table pre.ch_servers))
+                  add_fail "probe-starved" (Printf.sprintf "event q/p: failed server past its retry time, no probe in flight, draw %d mod %d = 0, yet no probe sent; table before [%s]" r2 chance (render_table pre.ch_servers))
               | _ -> ())
            | _ -> ()
          end in
@@ -288,4 +304,4 @@ let () =
     Printf.printf "CASE %d %s\n" k !cls;
     (match !diff with Some d -> Printf.printf "DIFF %d %s\n" k d | None -> ());
     List.iter (fun (kind, s) -> Printf.printf "FAIL %d %s %s\n" k kind s) (List.rev !fails)) cases;
-  Printf.printf "STAT events %d\nSTAT fresh-attempts %d\nSTAT probes %d\n" !n_events !n_fresh !n_probes
+  Printf.printf "STAT events %d\nSTAT fresh-attempts %d\nSTAT probes %d\nSTAT probes-failed-at-connect %d\n" !n_events !n_fresh !n_probes !n_pf
